@@ -77,3 +77,55 @@ NATIVE ("SHRT.ear33Mat", nativeEar33, 1)
 NATIVE ("SHRT.ear33Scl", nativeEar33, 2)
 NATIVE ("SHRT.ear33Shr", nativeEar33, 3)
 
+// With c10frac.h included first (SYMNS_HAVE_FRACS): the REAL inner function is also instantiated at the exact-fraction type FracS
+// (fixed rational stubs for sqrt and the limit constants — the same as the tree evaluator and the Lean side use), so that
+// troute.lean_tv validates the emitted text of the wrappers that call it (flag test, argument order, projections) instead of
+// skipping them; the Lean side evaluates the HAND MODEL adapters (Model/SHRT.lean) at Rat with the same stubs, which makes this
+// a second, exact-arithmetic tie between the hand model and the real template (besides the bitwise Float correspondence).
+#ifdef SYMNS_HAVE_FRACS
+template <int what> static std::vector<symns::Frac> fracEar44 (const std::vector<symns::Frac>& a)
+{
+    return symns::fracRun ([&] {
+        using symns::FracS;
+        IMATH_INTERNAL_NAMESPACE::Matrix44<FracS> m;
+        for (int i = 0; i < 4; ++i) for (int j = 0; j < 4; ++j) m.x[i][j] = FracS (a[4 * i + j]);
+        const IMATH_INTERNAL_NAMESPACE::Matrix44<FracS> in = m;
+        IMATH_INTERNAL_NAMESPACE::Vec3<FracS> scl (FracS (0)), shr (FracS (0));
+        bool ok = IMATH_INTERNAL_NAMESPACE::extractAndRemoveScalingAndShear (m, scl, shr, false);
+        std::vector<FracS> o;
+        // on failure the adapters of Model/SHRT.lean return (0, the input matrix, 0, 0)
+        if (what == 0) o.push_back (ok ? FracS (1) : FracS (0));
+        if (what == 1) for (int i = 0; i < 4; ++i) for (int j = 0; j < 4; ++j) o.push_back (ok ? m.x[i][j] : in.x[i][j]);
+        if (what == 2) for (int i = 0; i < 3; ++i) o.push_back (ok ? scl[i] : FracS (0));
+        if (what == 3) for (int i = 0; i < 3; ++i) o.push_back (ok ? shr[i] : FracS (0));
+        return o;
+    });
+}
+template <int what> static std::vector<symns::Frac> fracEar33 (const std::vector<symns::Frac>& a)
+{
+    return symns::fracRun ([&] {
+        using symns::FracS;
+        IMATH_INTERNAL_NAMESPACE::Matrix33<FracS> m;
+        for (int i = 0; i < 3; ++i) for (int j = 0; j < 3; ++j) m.x[i][j] = FracS (a[3 * i + j]);
+        const IMATH_INTERNAL_NAMESPACE::Matrix33<FracS> in = m;
+        IMATH_INTERNAL_NAMESPACE::Vec2<FracS> scl (FracS (0));
+        FracS shr (0);
+        bool ok = IMATH_INTERNAL_NAMESPACE::extractAndRemoveScalingAndShear (m, scl, shr, false);
+        std::vector<FracS> o;
+        if (what == 0) o.push_back (ok ? FracS (1) : FracS (0));
+        if (what == 1) for (int i = 0; i < 3; ++i) for (int j = 0; j < 3; ++j) o.push_back (ok ? m.x[i][j] : in.x[i][j]);
+        if (what == 2) for (int i = 0; i < 2; ++i) o.push_back (ok ? scl[i] : FracS (0));
+        if (what == 3) o.push_back (ok ? shr : FracS (0));
+        return o;
+    });
+}
+#define NATIVEQ(name, fn, w) static int nativeq_##fn##w = (symns::natives ()[name].q = &fn<w>, 0);
+NATIVEQ ("SHRT.ear44Flag", fracEar44, 0)
+NATIVEQ ("SHRT.ear44Mat", fracEar44, 1)
+NATIVEQ ("SHRT.ear44Scl", fracEar44, 2)
+NATIVEQ ("SHRT.ear44Shr", fracEar44, 3)
+NATIVEQ ("SHRT.ear33Flag", fracEar33, 0)
+NATIVEQ ("SHRT.ear33Mat", fracEar33, 1)
+NATIVEQ ("SHRT.ear33Scl", fracEar33, 2)
+NATIVEQ ("SHRT.ear33Shr", fracEar33, 3)
+#endif
